@@ -22,7 +22,7 @@ def run_one(prop, patch, tier):
         subprocess.run(['rsync', '-a', '--exclude', '.git', '--exclude', '__pycache__', '--include', '*/', '--include', '*.py', '--exclude', '*', '/repo/wpull', tmp + '/'], check=True)
         p = subprocess.run(['patch', '-p1', '-s', '-d', tmp, '-i', patch], stdout=subprocess.PIPE, stderr=subprocess.STDOUT, text=True)
         if p.returncode != 0: return patch, 'PATCH-FAILED', p.stdout[-300:]
-        r = subprocess.run(['python3-vt', '-m', 'pyvc.driver', prop, '--repo', tmp, '--no-evidence', '--no-bounded', '--tier', tier, '--jobs', '4'], cwd=ROOT,
+        r = subprocess.run(['python3-vt', '-m', 'pyvc.driver', prop, '--repo', tmp, '--no-evidence', '--no-bounded', '--tier', tier, '--jobs', '4', '--out', tmp + '/_out'], cwd=ROOT,
                            stdout=subprocess.PIPE, stderr=subprocess.STDOUT, text=True)
         failed = [l.split('failed obligation: ')[1] for l in r.stdout.splitlines() if l.startswith('failed obligation: ')]
         if r.returncode == 1 and (exp is None or any(exp in f for f in failed)):
